@@ -22,11 +22,15 @@ def _nondet_real(tag):
 
 
 def _isfinite(I, args, kw):
-    # reals are always finite under A-REAL
-    return VBool(True)
+    # reals are always finite under A-REAL; the python-side constant VNaN is the one non-finite float
+    return VBool(not isinstance(args[0], VNaN))
 
 
 def _isnan(I, args, kw):
+    return VBool(isinstance(args[0], VNaN))
+
+
+def _isinf(I, args, kw):
     return VBool(False)
 
 
@@ -43,7 +47,7 @@ TABLE = {
     ("math", "sqrt"): _sqrt,
     ("math", "isfinite"): _isfinite,
     ("math", "isnan"): _isnan,
-    ("math", "isinf"): _isnan,
+    ("math", "isinf"): _isinf,
     ("time", "time"): _nondet_real("time.time"),
     ("time", "perf_counter"): _nondet_real("time.perf_counter"),
     ("time", "monotonic"): _nondet_real("time.monotonic"),
